@@ -140,7 +140,7 @@ impl Suite for FrontDoorSuite {
         "tls-front-door"
     }
     fn rule(&self) -> String {
-        "the real Core::listen on a loopback port (127.0.0.1, or [::] so that the IPv4 client appears as ::ffff:a.b.c.d) with generated TLS hosts (1-3 main hosts with alternative SNIs, 0-2 ping / speedtest / reverse-proxy hosts, 6 certificates), enabled protocols, and 0-4 rules built at run time around the client's real source address 127.a.b.c (containing / adjacent / unrelated / malformed CIDRs) and around the 32-byte random of the ClientHello the rustls client actually produced (prefix, prefix off by one bit, longer than the random, masked, malformed); the ClientHello (any SNI over the host-name alphabet, <credentials>.<main host>, or none; ALPN lists of known / unknown / non-UTF-8 / empty entries, optionally padded to 5-15 KiB or fragmented into records of 64-300 bytes) is written in 1-5 pieces from 127.a.b.c or ::1; oracle: reference rule evaluator says deny -> the endpoint closes without sending one byte, allow -> the reference routing decides: an SNI that designates no entry (or no SNI, or no permitted protocol) never completes a handshake, otherwise the handshake completes on exactly these bytes with the leaf certificate of an acceptable entry and the most preferred offered+enabled+permitted protocol as ALPN (never h3 on this TCP connection, also when the QUIC listener is enabled), and CONNECT _check works on tunnel hosts; at trace level no log record contains the credentials label of the SNI; non-trivial = a rule list whose verdict depends on the random or the source address, or an SNI that is not an exact main host".into()
+        "the real Core::listen on a loopback port (127.0.0.1, or [::] so that the IPv4 client appears as ::ffff:a.b.c.d) with generated TLS hosts (1-3 main hosts with alternative SNIs, 0-2 ping / speedtest / reverse-proxy hosts, 6 certificates), enabled protocols, and 0-4 rules built at run time around the client's real source address 127.a.b.c (containing / adjacent / unrelated / malformed CIDRs) and around the 32-byte random of the ClientHello the rustls client actually produced (prefix, prefix off by one bit, longer than the random, masked, malformed); the ClientHello (any SNI over the host-name alphabet, <credentials>.<main host>, or none; ALPN lists of known / unknown / non-UTF-8 / empty entries, optionally padded to 5-15 KiB or 17-25 KiB, or fragmented into records of 64-300 bytes) is written in 1-5 pieces from 127.a.b.c or ::1; oracle: reference rule evaluator says deny -> the endpoint closes without sending one byte, allow -> the reference routing decides: an SNI that designates no entry (or no SNI, or no permitted protocol) never completes a handshake, otherwise the handshake completes on exactly these bytes with the leaf certificate of an acceptable entry and the most preferred offered+enabled+permitted protocol as ALPN (never h3 on this TCP connection, also when the QUIC listener is enabled), and CONNECT _check works on tunnel hosts; at trace level no log record contains the credentials label of the SNI; non-trivial = a rule list whose verdict depends on the random or the source address, or an SNI that is not an exact main host".into()
     }
     fn strategy(&self, _: Tier) -> BoxedStrategy<Case> {
         let recipe = (
@@ -171,7 +171,7 @@ impl Suite for FrontDoorSuite {
             c05::alpn_strategy(),
             prop::collection::vec(any::<u16>(), 0..5),
             0u8..8,
-            (any::<u32>(), prop_oneof![4 => Just(0u8), 1 => 1u8..4, 2 => 18u8..60], prop_oneof![5 => Just(None), 1 => (64u16..300).prop_map(Some)], prop_oneof![3 => Just(false), 1 => Just(true)], prop_oneof![2 => Just(false), 1 => Just(true)]),
+            (any::<u32>(), prop_oneof![4 => Just(0u8), 1 => 1u8..4, 2 => 18u8..60, 1 => 68u8..100], prop_oneof![5 => Just(None), 1 => (64u16..300).prop_map(Some)], prop_oneof![3 => Just(false), 1 => Just(true)], prop_oneof![2 => Just(false), 1 => Just(true)]),
         )
             .prop_map(|(cfg, p, reverse_proxy, dual_stack, (a, b, c), rules, sni, alpn, cuts, gap_ms, (nonce, pad_alpn, fragment, from_v6, quic))| Case {
                 cfg,
@@ -224,6 +224,9 @@ impl Suite for FrontDoorSuite {
         }
         if c.pad_alpn >= 18 {
             v.push("hello-larger-than-4-KiB");
+        }
+        if c.pad_alpn >= 68 {
+            v.push("hello-larger-than-the-peek-buffer");
         }
         if c.fragment.is_some() {
             v.push("hello-over-several-records");
@@ -446,7 +449,7 @@ fn judge(c: &Case, peer: IpAddr, random: &[u8], rules: &[RuleSpec], front: &Fron
     ensure!(!matches!(front, Front::Hanging), "frontdoor:connection-left-hanging", "{}: neither answered nor closed within 4 s", what);
     // C04 / C12: verdict of the rules on the real address and the real random
     let mut verdict = refr::evaluate(&to_ref(rules), &peer, Some(random), true);
-    if c.fragment.is_some() {
+    if c.fragment.is_some() || c.pad_alpn >= 64 {
         // a ClientHello over several records may be reported as "client random absent"
         let blind = refr::evaluate(&to_ref(rules), &peer, None, true);
         if blind != verdict {
